@@ -1,50 +1,44 @@
 #!/usr/bin/env python3
-"""Regenerates /verif/MANIFEST.json from the table below and `mc list` (which properties have a built check)."""
+"""Regenerates /verif/MANIFEST.json from `mc list-json` (the built checks, their level, engine, rule
+and assumptions) and manifest_meta.json (per-property technique wording / not-applicable reasons)."""
 import json, subprocess, sys
-built = {}
 try:
-    out = subprocess.run(['/verif/target/mc/mc', 'list'], capture_output=True, text=True, check=True).stdout
-    for l in out.splitlines():
-        i, level, engine = l.split()
-        built[i] = (level, engine)
+    out = subprocess.run(['/verif/target/mc/mc', 'list-json'], capture_output=True, text=True, check=True).stdout
+    built = {p['id']: p for p in json.loads(out)}
 except Exception as e:
-    print("cannot run mc list:", e); sys.exit(2)
-
-# id -> (design_ref, technique, level text, level note)
-T = {}
-def t(i, tech, text, note): T[i] = ("DESIGN.md §4 " + i, tech, text, note)
+    print("cannot run mc list-json:", e); sys.exit(2)
 meta = json.load(open('/verif/manifest_meta.json'))
-for i, m in meta.items(): t(i, m['technique'], m['text'], m['note'])
-
+TECH = {
+ "sweep": "bounded exhaustive enumeration (every input / operation sequence up to the stated bound over a small alphabet) run on the real code in 16 worker processes, each case checked against a reference model or invariant; no sampling",
+ "hist": "explicit-state model checking (stateright DFS/BFS with state matching) of a transition system whose states are live quil_rs::Program values and whose transitions call the real methods; oracle evaluated in every reachable state",
+ "queue": "bounded exhaustive enumeration of programs through the real scheduler plus exhaustive exploration of the hooked DependencyQueue (all access sequences up to a bound); thorough tier adds a TLC-checked TLA+ model whose every state is replayed on the real queue",
+ "child": "bounded exhaustive enumeration with process isolation: every case expanded on a 2 MiB-stack thread in a worker process, abnormal exits and hangs attributed to the case",
+}
 props = [json.loads(l) for l in open('/verif/properties.jsonl')]
 checks, na = [], []
 for p in props:
     i = p['id']
-    if i in built and i in T:
-        level, engine = built[i]
-        ref, tech, text, note = T[i]
+    if i in built:
+        b = built[i]; m = meta.get(i, {})
+        lvl = b['level']
+        text = m.get('text') or (("model checking" if lvl == "model_checking" else "bounded exhaustive exploration") + ": " + b['rule'])
+        note = m.get('note') or ("bounds as stated in the rule (quick / thorough); trusted base: the reference model in /verif/mc/src (" + "; ".join(b['assumptions']) + "), rustc, the harness engine")
         checks.append({
             "property_id": i,
             "quick_cmd": f"./check {i} quick",
             "thorough_cmd": f"./check {i} thorough",
             "evidence_file": f"/verif/evidence/{i}.json",
             "replay_cmd_template": "./check replay {path}",
-            "engine": engine,
-            "level_claimed": {"category": level, "text": text, "design_ref": ref},
+            "engine": b['engine'],
+            "level_claimed": {"category": lvl, "text": text, "design_ref": "DESIGN.md §4 " + i},
             "level_note": note,
-            "technique": tech,
+            "technique": m.get('technique') or TECH[b['engine']],
         })
     else:
         na.append({"property_id": i, "reason": meta.get(i, {}).get('na_reason', "check not built yet in this round (planned: bounded exhaustive exploration, see DESIGN.md §4 " + i + ")")})
 engines = {}
-for i, (level, engine) in built.items():
-    engines.setdefault(engine, []).append(i)
-ENG = {
- "sweep": "E1+E2: bounded exhaustive prefix-tree / mixed-radix enumeration of inputs or operation sequences, run on the real code in 16 worker processes, every case checked against a reference model or invariant",
- "hist": "E3: explicit-state search (stateright BFS/DFS with state matching) over histories of real Program API operations; the state is a live quil_rs::Program",
- "queue": "E1 over the hooked DependencyQueue plus E4: TLC-explored TLA+ model whose every state is replayed on the real queue (conformance)",
- "child": "E2: one child process per case with watchdog and 2 MiB worker stack; abnormal exits are observations",
-}
+for i, b in built.items():
+    engines.setdefault(b['engine'], []).append(i)
 m = {
  "version": 1,
  "setup_cmd": "./check setup",
@@ -55,10 +49,10 @@ m = {
    "source_commits": subprocess.run(['git','-C','/repo','log','--format=%H','--grep=^verif hook'], capture_output=True, text=True).stdout.split(),
    "add_only": True,
  },
- "engines": [{"name": k, "path": "/verif/mc/src/engine.rs", "serves_properties": sorted(v), "kind_free_text": ENG.get(k, k)} for k, v in sorted(engines.items())],
+ "engines": [{"name": k, "path": "/verif/mc/src/engine.rs", "serves_properties": sorted(v), "kind_free_text": TECH.get(k, k)} for k, v in sorted(engines.items())],
  "checks": checks,
  "not_applicable": na,
- "notes": "One binary (/verif/mc) serves every check; ./check builds it offline against /repo's current working tree with the hook guard on. Known findings: /verif/known_findings.json. Exit 2 + MACHINERY-ERROR = harness failure, never a verdict.",
+ "notes": "One binary (/verif/mc, built into /verif/target) serves every check; ./check builds it offline against /repo's current working tree with the hook guard on. Known findings: /verif/known_findings.json (never written at run time). Exit 2 + MACHINERY-ERROR = harness failure, never a verdict. Seeded property-breaking changes and which checks catch them: /verif/seeded/ and DESIGN.md §6.",
 }
 json.dump(m, open('/verif/MANIFEST.json', 'w'), indent=1)
 print(f"MANIFEST.json: {len(checks)} checks, {len(na)} not_applicable")
